@@ -314,14 +314,20 @@ class Engine(EngineBase, Generic[VarType]):
                 names_out, args_out, self, net, parameters, other_parameters, compact
             )
 
-        # create dynamics function
+        # create dynamics function. CasADi's common subexpression elimination tells
+        # symbols apart by name, so it is only safe if all symbol names are unique
+        # (elements with the same name create equally named symbols)
+        symnames = [sym.name() for sym in cs.symvar(cs.vvcat(args_in))]
         return cs.Function(
             "F",
             args_in,
             args_out,
             names_in,
             names_out,
-            {"allow_duplicate_io_names": True, "cse": True},
+            {
+                "allow_duplicate_io_names": True,
+                "cse": len(set(symnames)) == len(symnames),
+            },
         )
 
     def __str__(self) -> str:
